@@ -16,20 +16,20 @@ CLAIMS = {
     "C02": ("property-based testing (rapid): generated worlds with layout stress, every query at every character boundary, independent line/column recomputation over every emitted range",
             "Generated-input search with an exact validity predicate: every hcl.Range reachable from every query result must name a file of the reported path, satisfy 0 <= start <= end <= len and carry the line/column that an independent recomputation (newline count + grapheme clusters) assigns to its byte offsets.",
             "4/C02", TRUST + " Ranges inside top-level items whose parser AST is itself inconsistent (unterminated calls) are attributed upstream and not judged; cursors are placed on character boundaries only."),
-    "C03": ("property-based testing (rapid), metamorphic: repeat / after-history / fresh-world equality of canonical results",
-            "Metamorphic generated-input search: the same query must render identically across repetitions on one decoder (Go re-randomises map iteration per range statement), after an arbitrary history of other queries, and on freshly rebuilt worlds; wide bodies (>= 13 entries) defeat the accidental stability of small sorts.",
+    "C03": ("property-based testing (rapid), metamorphic: repeat / after-history / fresh-world (reordered queries) / pristine-world equality of canonical results",
+            "Metamorphic generated-input search: the same query must render identically across repetitions on one decoder (Go re-randomises map iteration per range statement), after an arbitrary history of other queries, on freshly rebuilt worlds asked in reverse, rotated and original order, and as the very first operation on a never-used world (not even the collectors ran) given the same collected references; wide bodies (>= 13 entries) defeat the accidental stability of small sorts.",
             "4/C03", TRUST + " An order dependence that needs a rare map-iteration order can be missed; the repetition count is the knob."),
-    "C04": ("property-based testing (rapid), history-based: deep snapshot of all caller-supplied data compared after every query of a generated history",
-            "Generated call histories against a deep structural snapshot (unexported fields, slice spare capacity, pointer graph) of every PathContext and the DecoderContext; any difference after any step is a violation.",
+    "C04": ("property-based testing (rapid), history-based: deep snapshot of all caller-supplied data taken before anything runs and compared after collection and after every query of a generated history",
+            "Generated call histories against a deep structural snapshot (unexported fields, slice spare capacity, pointer graph) of every PathContext and the DecoderContext, first taken on the pristine world before the reference collectors run; any difference after collection or after any later step is a violation.",
             "4/C04", TRUST + " Writes that store identical content are invisible to a snapshot (they are covered by the race detector in C05)."),
     "C05": ("stress property-based testing under the Go race detector (rapid-generated worlds and query multisets; sequential-vs-concurrent differential)",
-            "Generated worlds and query lists are executed sequentially and then on 4-32 goroutines sharing PathReader/PathContext/schema; the binary is built with -race, every concurrent result must equal the sequential one and the snapshot must be unchanged. Exploration: the harness does not control the scheduler.",
+            "Generated worlds and query lists are executed sequentially and then on 4-32 goroutines sharing PathReader/PathContext/schema (calls dealt out statically, no synchronisation between start and join, so the harness adds no happens-before edges); the binary is built with -race, every concurrent result must equal the sequential one and the snapshot must be unchanged. Exploration: the harness does not control the scheduler.",
             "4/C05", TRUST + " Only interleavings that actually occur are observed; the race detector is precise for those and silent about others."),
     "C17": ("property-based testing (rapid) with a reflection-driven populator over the struct definitions; equality + aliasing (scramble) oracle",
             "Every type with a Copy method is populated field by field through reflection (future fields are covered automatically; an unpopulatable field fails the check), copied, compared structurally and probed for aliasing by scrambling every container of the copy (and of the original) while snapshotting the other side.",
             "4/C17", "Constraints, addresses and cty values are exempt from the aliasing probe as the statement says. Exploration only."),
     "C06": ("property-based testing (rapid): validity predicate over every completion candidate at every cursor; constructed populations around the limit with an exact count; metamorphic left-out probe",
-            "Generated-input search with a validity predicate per candidate (edit range vs cursor, tab-stop syntax and numbering) and per list (limit of 100). The complete-flag clause is decided exactly on constructed populations of known size (attributes, block types, labels, functions, object attributes, reference targets, hook candidates; 0..250 entries, with and without typed prefix and extensions) and metamorphically on generated worlds (a complete list at the limit must contain everything offered after one more typed character).",
+            "Generated-input search with a validity predicate per candidate (edit range vs cursor, tab-stop syntax and numbering) and per list (limit of 100). The complete-flag clause is decided exactly on constructed populations of known size (attributes, block types, labels, functions, object attributes, reference targets, hook candidates, and two-source lists: hook candidates plus functions / reference targets; 0..250 entries, with and without typed prefix and extensions) and metamorphically on generated worlds (a complete list at the limit must contain everything offered after one more typed character).",
             "4/C06", TRUST + " Hook-provided insert text is caller content and not snippet-checked."),
     "C18": ("property-based testing (rapid), metamorphic: translate the file by inserted blank/comment lines and compare every query result up to shifting",
             "Metamorphic generated-input search: result(original, p) with the edited file's ranges shifted equals result(translated, shift(p)) for every query kind and cursor; the parser-level precondition (top-level AST is translated) is checked, not assumed.",
@@ -54,7 +54,7 @@ CLAIMS = {
             "4/C07", TRUST + " Exactness is judged only where error recovery cannot have reshaped the body (parse errors tolerated on the cursor line and on lone-identifier lines); `dynamic` and the any-attribute placeholder are don't-care."),
     "C16": ("property-based testing (rapid): permutation/collision relations on schema keys; constructed dependent-body scenarios with a marker per body and cross-feature agreement",
             "Key level: NewSchemaKey is compared across permutations and across different key sets (canonical form computed by the harness). Feature level: for a constructed block with dependent bodies registered under permuted key sets and an instance written to select one, hover, tokens, validation, targets, origins, completion and links must all reflect exactly the body the reference model (and the construction) selects.",
-            "4/C16", TRUST + " Two-step (second-level) selection is covered through the general generator by C07/C12/C13/C15."),
+            "4/C16", TRUST + " The scenario covers label keys, attribute keys (literal, default, reference) and a second level keyed by an attribute of a first-level body (written, defaulted, unregistered value); arbitrary schemas with two-level bodies are additionally exercised by C03/C04/C13/C15."),
     "C10": ("property-based testing (rapid): differential against HCL's own Variables() on the places a reference model (constraint-directed structural descent on the serialisable schema) says admit references",
             "Generated schemas and type-correct, reference-heavy expressions; the expected set of (address, range) is computed from HCL's Variables() restricted to admitting places of the effective schema and compared with CollectReferenceOrigins (local origins exactly, ordering, path and direct origins).",
             "4/C10", TRUST + " Statement-silent classes (for iterator variables, arguments of unknown / parameterless functions, surplus arguments, key expressions, dynamic blocks) are don't-care regions."),
@@ -65,8 +65,8 @@ CLAIMS = {
             "For every collected origin, go-to-definition is judged sound and complete against a matching predicate written from the statement (address equality / dynamic prefix / block-local containment / scope and type constraints, target path), and find-references at each reported definition must list the origin; find-references results must themselves be collected origins pointing into the queried path that denote a declaration at the position.",
             "4/C11", TRUST + " The sets of targets and origins are the collectors' own output (their exactness is C09/C10)."),
     "C19": ("property-based testing (rapid), differential: one structured configuration rendered in native and in JSON syntax, reference graph and outline compared",
-            "One generated configuration model is rendered twice; absolute targets (address, type, scope, nesting), origin addresses with constraints up to the documented any-type fallback, and the block/attribute outline must agree between the two syntaxes.",
-            "4/C19", TRUST + " Only schema-known attributes are written (JSON cannot tell unknown attributes from blocks); ranges and block-local targets are ignored as the statement says."),
+            "One generated configuration model (any-expression, reference, one-of(reference, literal), list, map, object and literal constraints; interpolated and legacy bare-string references) is rendered twice; absolute targets (address, type, scope, nesting), origin addresses with constraints up to the documented any-type fallback, and the block/attribute outline must agree between the two syntaxes.",
+            "4/C19", TRUST + " Only schema-known attributes are written (JSON cannot tell unknown attributes from blocks), and where a reference and a string literal are both admitted the literals are strings that are no traversal (JSON cannot tell them from a legacy reference); ranges and block-local targets are ignored as the statement says. One known finding (escaped string index under a Reference constraint) is listed in known_findings.json."),
     "C08": ("property-based testing (rapid): validity predicate per value-completion candidate against the collected declarations and the attribute's constraint; round trip through go-to-definition",
             "Terraform-like worlds with resolving references and half-typed values; every candidate inside an attribute value is judged: reference candidates are addresses of collected declarations, start with the typed text, are visible (block-local names, self.*), are not the edited attribute and fit the expected scope/type where known; function candidates are known functions with convertible return type; accepted reference candidates resolve back through go-to-definition.",
             "4/C08", TRUST + " Soundness of candidates only ('offers only what fits'); the expected scope/type is judged only where the value is a plain traversal or empty."),
